@@ -799,6 +799,21 @@ O(id='pxml_parse', props=['C04', 'C19'], entry='h_pxml_parse', harness='harness/
   include=['contracts/xer_support.h'], enforce=['pxml_parse'], loops=True, functions=['pxml_parse'], fp_restrict=[(r'::cb$', ['tok_cb'])], backends=['sat', 'cvc5'], min_props=15, timeout=900,
   trusted=['token callback: harness stub without side effects, arbitrary return value'])
 
+for _c in (0, 1, 2, 3):
+    O(id='SET_OF_encode_uper.n%d' % _c, props=['C02', 'C06', 'C07', 'C14'], kind='bounded', tier='experimental', entry='h_SET_OF_encode_uper', harness='harness/h_setof_uper_enc.c',
+      units=[SK + 'constr_SET_OF.c', SK + 'per_encoder.c', SK + 'per_support.c', SK + 'asn_bit_data.c'], link=[SK + 'asn_SET_OF.c', SK + 'per_encoder.c', SK + 'per_support.c', SK + 'asn_bit_data.c'],
+      functions=['SET_OF_encode_uper', 'SET_OF__encode_sorted', 'SET_OF__encode_sorted_free', '_el_addbytes', '_el_buf_cmp', 'uper_encode', 'uper_put_length', 'asn_put_many_bits'],
+      stubs=['stubs/qsort_gen.c', 'stubs/realloc_fixed96.c', 'stubs/memcpy16.c'], defines=['VF_CB_CAP=8', 'VF_COUNT=%d' % _c],
+      fp_restrict=[(r'uper_encoder\)$', ['sv_enc']), (r'::cb$|\.output\)$|->output\)$', ['vf_cb', '_el_addbytes']), (r'compar$', ['_el_buf_cmp'])],
+      unwind=12, cbmc=['--unwindset', 'realloc.0:98,qsort.0:66,memcpy.0:18,asn_put_few_bits:4', '--malloc-may-fail', '--malloc-fail-null', '--memory-leak-check'],
+      bound='lists of exactly %d stub elements of 8 bits, no SIZE constraint; every order, every output failure point, every allocation may fail' % _c,
+      trusted=['element type is a harness stub', 'stubs/qsort_gen.c, stubs/realloc64.c, stubs/memcpy16.c'], min_props=60, timeout=900)
+
+for _c in (0, 1, 2, 3):
+    O(id='SET_OF_encode_uper.grid.n%d' % _c, props=['C02', 'C06', 'C07', 'C14'], kind='native', harness='harness/grid_setof_uper.c', entry='main',
+      functions=['SET_OF_encode_uper', 'SET_OF__encode_sorted', 'SET_OF__encode_sorted_free', '_el_addbytes', '_el_buf_cmp', 'uper_encode', 'uper_put_length', 'asn_put_many_bits'], no_canary=True,
+      defines=['VF_COUNT=%d' % _c, 'VF_CB_CAP=40', 'VF_PREFILL=1'], bound='native grid under ASan/UBSan/LSan with the assertions of h_setof_uper_enc.c (scratch space pre-filled so that every octet is flushed through the callback): lists of exactly %d 8-bit stub elements (all values for <= 2 elements, 24^3 grid for 3) x no / 0th..3rd output call failing' % _c, timeout=900)
+
 for _o in OBLIGATIONS:
     if _o.get('enforce') and _o.get('kind') in ('enforce', 'width') and _o.get('tier') == 'quick' and 'C19' not in _o['props']:
         _o['props'] = _o['props'] + ['C19']
@@ -812,7 +827,7 @@ UNVERIFIED = {
  'C03': [CONSTR, XERU, 'OCTET_STRING_decode_ber constructed reassembly (obligation experimental)', 'uper_open_type_get_simple / uper_open_type_skip: no CBMC obligation discharges (bit-level fragment copying); covered only by the native grid uper_open_type_skip.grid', 'ber_skip_length (obligation experimental: recursion does not discharge)'],
  'C04': [CONSTR, XERU, 'OCTET_STRING_decode_ber (experimental)', 'per_opentype.c', 'UTF8String__process, OCTET_STRING_per_get_characters', 'unber (experimental)'],
  'C05': [CONSTR + ' -- i.e. every phase/step machine that saves a context across calls', XERU],
- 'C06': ['SET_OF_encode_uper (canonical ordering for PER); SET OF lists of more than 3 elements', 'the default_value_cmp functions themselves (try_inline_default emits text)', 'CANONICAL-XER', 'decode-from-variant then re-encode for constructed types'],
+ 'C06': ['SET_OF_encode_uper (canonical ordering for PER) is covered by a native grid only (CBMC runs out of memory); SET OF lists of more than 3 elements', 'the default_value_cmp functions themselves (try_inline_default emits text)', 'CANONICAL-XER', 'decode-from-variant then re-encode for constructed types'],
  'C07': ['asn_encode_to_buffer / asn_encode_to_new_buffer / uper_encode_to_buffer / uper_encode_to_new_buffer with a UPER type encoder: obligations exist (tier experimental) but do not discharge (symbolic-length memcpy of the 32-octet bit scratch space runs out of memory); asn_encode with UPER is covered',
          'every constructed / generated type encoder is assumed to follow the operation-slot convention enumerated by the stub encoder', XERU,
          'NULL_encode_der and other type encoders not listed under functions_under_contract'],
